@@ -168,7 +168,9 @@ def pipeline_cases(draw):
         if "." not in steps[i][0]:
             # free text, also text that spells another step kind (only the part before the dot names the kind)
             steps[i][0] = steps[i][0] + draw(st.sampled_from([".only", ".validation", ".before_validation", ".multiscale",
-                                                              ".no_filter", ".matching_cost_2"]))
+                                                              ".no_filter", ".matching_cost_2",
+                                                              # several dots: the user guide's own example is "filter.after.validation"
+                                                              ".after.validation", ".v1.2", ".a.b.c"]))
     ops = ["check"] + draw(st.lists(st.sampled_from(["check", "run", "run", "check_perm", "check_sub", "check_other"]), min_size=1, max_size=4))
     perm_seed = draw(st.integers(0, 1000))
     edit = draw(st.sampled_from(["swap", "delete", "duplicate", "insert"]))
@@ -424,6 +426,8 @@ def pipeline_body(ctx: Ctx, p: dict) -> None:
         classes.append("validation")
     if any("." in n for n in names):
         classes.append("suffix")
+    if any(n.count(".") >= 2 for n in names):
+        classes.append("suffix-with-several-dots")
     if mutant_illegal:
         classes.append("illegal-mutant")
     if p["ops"].count("run") >= 2:
